@@ -5,7 +5,124 @@ use vstd::prelude::*;
 use std::marker::PhantomData;
 verus! {
 //@include common/vector_map_items.rs
-//@dropped VectorMap::{get_mut, capacity, iter, iter_mut, indices, into_indices, values, into_values}, Default/From impls: iterator adapters and &mut returns are outside Verus' subset; not under contract (sets()/values() of DisjointSet assume their enumeration contract)
+//@dropped VectorMap::{get_mut, iter, iter_mut, indices, into_indices, values, into_values}: iterator adapters and &mut returns are outside Verus' subset; not under contract (sets()/values() of DisjointSet assume their enumeration contract)
+
+// ---- C19: the map built from a list of pairs is the fold of inserts: the LAST pair of a key wins ----
+pub open spec fn last_binding<K: ToUniqueIndex, V>(s: Seq<(K, V)>, i: int) -> Option<V>
+    decreases s.len()
+{
+    if s.len() == 0 { None }
+    else if s.last().0.index_spec() == i { Some(s.last().1) }
+    else { last_binding(s.drop_last(), i) }
+}
+
+// A-STD: Vec::capacity has no specification in vstd; the stand-in promises nothing about the number.
+#[verifier::external_body]
+fn vx_vec_capacity<T>(v: &Vec<T>) -> usize { v.capacity() }
+
+// A-DERIVE: V::clone returns an equal value (the `From<&[(K, V)]>` contract is stated up to that).
+#[verifier::external_body]
+fn vx_clone<V: Clone>(v: &V) -> (r: V)
+    ensures r == *v
+{ v.clone() }
+
+//@extract file=src/data/vector_map.rs path="impl<K, V> VectorMap<K, V>" kind=header
+//@end
+//@extract file=src/data/vector_map.rs path="impl<K, V> VectorMap<K, V>|fn capacity" props=C19,C01
+//@ret r
+//@spec
+        ensures true,
+// R-CALL: Vec::capacity -> the unspecified stand-in
+//@rw R-CALL
+//@old
+self.data.capacity()
+//@new
+vx_vec_capacity(&self.data)
+//@end
+}
+
+//@extract file=src/data/vector_map.rs path="impl<K, V> Default for VectorMap<K, V>" kind=header
+//@end
+//@extract file=src/data/vector_map.rs path="impl<K, V> Default for VectorMap<K, V>|fn default" props=C19,C01 id=VectorMap::default
+//@ret r
+//@spec
+        ensures
+            r.wf(), r.slen() == 0,                         //@ob C19.vm.default.len0
+            forall|i: int| r.sget(i).is_none(),            //@ob C19.vm.default.empty
+//@end
+}
+
+// vstd's `From` carries `obeys_from_spec() ==> r == from_spec(v)`; the impls below opt out and state their own contract.
+impl<K: ToUniqueIndex, V> vstd::std_specs::convert::FromSpecImpl<Vec<(K, V)>> for VectorMap<K, V> {
+    open spec fn obeys_from_spec() -> bool { false }
+    open spec fn from_spec(v: Vec<(K, V)>) -> VectorMap<K, V> { arbitrary() }
+}
+impl<'a, K: ToUniqueIndex, V: Clone> vstd::std_specs::convert::FromSpecImpl<&'a [(K, V)]> for VectorMap<K, V> {
+    open spec fn obeys_from_spec() -> bool { false }
+    open spec fn from_spec(v: &'a [(K, V)]) -> VectorMap<K, V> { arbitrary() }
+}
+
+//@extract file=src/data/vector_map.rs path="impl<K, V> From<Vec<(K, V)>> for VectorMap<K, V>" kind=header
+//@end
+//@extract file=src/data/vector_map.rs path="impl<K, V> From<Vec<(K, V)>> for VectorMap<K, V>|fn from" props=C19,C01 id=VectorMap::from_vec
+//@ret r
+//@spec
+        ensures
+            r.wf(),                                                                  //@ob C19.vm.from_vec.wf
+            forall|i: int| r.sget(i) == last_binding(value@, i),                     //@ob C19.vm.from_vec.is_fold_of_inserts
+// R-FOREACH: `for (key, val) in value` -> the same loop with a named iterator (for the invariant); the pattern is bound in the body
+//@rw R-FOREACH
+//@old
+for (key, val) in value {
+//@new
+let ghost vx_all = value@;
+        for vx_pair in vx_it: value
+            invariant
+                vx_it.seq() == vx_all,
+                map.wf(),
+                forall|i: int| map.sget(i) == last_binding(vx_all.take(vx_it.index@ as int), i),       //@ob C19.vm.from_vec.is_fold_of_inserts
+        {
+            let ghost vx_i = vx_it.index@ as int;
+            proof { assert(vx_all.take(vx_i + 1).drop_last() =~= vx_all.take(vx_i)); assert(vx_all.take(vx_i + 1).last() == vx_all[vx_i]); }
+            let (key, val) = vx_pair;
+//@proof afterloop #1
+        proof { assert(vx_all.take(vx_all.len() as int) =~= vx_all); }
+//@end
+}
+
+//@extract file=src/data/vector_map.rs path="impl<K, V> From<&[(K, V)]> for VectorMap<K, V>" kind=header
+//@end
+//@extract file=src/data/vector_map.rs path="impl<K, V> From<&[(K, V)]> for VectorMap<K, V>|fn from" props=C19,C01 id=VectorMap::from_slice
+//@ret r
+//@spec
+        ensures
+            r.wf(),                                                                  //@ob C19.vm.from_slice.wf
+            forall|i: int| r.sget(i) == last_binding(value@, i),                     //@ob C19.vm.from_slice.is_fold_of_inserts
+// R-FOREACH: `for (key, val) in value` (slice by reference) -> index loop binding the same pattern; R-CALL: V::clone -> A-DERIVE stand-in
+//@rw R-FOREACH
+//@old
+for (key, val) in value {
+//@new
+let mut vx_k: usize = 0;
+        while vx_k < value.len()
+            invariant
+                vx_k <= value.len(),
+                map.wf(),
+                forall|i: int| map.sget(i) == last_binding(value@.take(vx_k as int), i),       //@ob C19.vm.from_slice.is_fold_of_inserts
+            decreases value.len() - vx_k,
+        {
+            proof { assert(value@.take(vx_k + 1).drop_last() =~= value@.take(vx_k as int)); assert(value@.take(vx_k + 1).last() == value@[vx_k as int]); }
+            let (key, val) = &value[vx_k];
+            vx_k = vx_k + 1;
+//@rw R-CALL
+//@old
+val.clone()
+//@new
+vx_clone(val)
+//@proof afterloop #1
+        proof { assert(value@.take(value@.len() as int) =~= value@); }
+//@end
+}
 
 } // verus!
 fn main() {}
